@@ -35,6 +35,8 @@ def main():
     from harness import algos  # noqa: F401
 
     _fill_uninitialised(0x7F if variant == 1 else 0x00)
+    global _HEAP_JUNK
+    _HEAP_JUNK = _perturb_addresses(variant)
     if variant == 1:
         np.random.seed(987654)
         random.seed(424242)
@@ -58,6 +60,33 @@ def main():
     with open(out + f".tmp{os.getpid()}", "w") as f:
         json.dump(traces, f)
     os.replace(out + f".tmp{os.getpid()}", out)
+
+
+_HEAP_JUNK = None
+
+
+def _perturb_addresses(variant):
+    """Object addresses (and with them id()-based hashes and the iteration order of sets / dicts keyed by objects
+    without __hash__) depend on the allocation history of the process: variant 1 starts from a differently
+    fragmented heap (objects of many size classes allocated, every other one freed, the rest kept alive)."""
+    if variant != 1:
+        return None
+
+    class _Obj:
+        __slots__ = ("a", "b")
+
+    class _Dyn:
+        pass
+
+    junk = []
+    for k in range(4000):
+        junk.append(bytearray(16 + (k * 37) % 1500))
+        junk.append(_Obj())
+        junk.append(_Dyn())
+        junk.append([None] * (1 + k % 23))
+        junk.append({k: k})
+    del junk[::2]
+    return junk
 
 
 def _fill_uninitialised(byte):
